@@ -218,7 +218,10 @@ class Run(object):
     def __init__(self, engine, qual):
         self.engine = engine
         self.qual = qual
-        r = engine.repo.func(qual)
+        # "<function>@impl": a contract for the BODY of that function only (e.g. the default implementation of a virtual
+        # method whose dispatching contract is an abstract stub); never used at call sites
+        fq = qual.split("@")[0]
+        r = engine.repo.func(fq)
         if r is None:
             raise Unsupported("function not found: " + qual)
         self.module, self.inner, self.fdef = r
